@@ -215,6 +215,7 @@ where
 
     // Track spawned hedge tasks
     let mut hedges_spawned: usize = 0;
+    let mut errors_received: usize = 0;
     let mut primary_error: Option<S::Error> = None;
 
     // Get delay for first hedge
@@ -259,8 +260,11 @@ where
                                     if attempt == 0 {
                                         primary_error = Some(e.clone());
                                     }
-                                    // Check if all attempts exhausted
-                                    if hedges_spawned + 1 >= max_attempts {
+                                    errors_received += 1;
+                                    // Check if all attempts have been started and have failed
+                                    if hedges_spawned + 1 >= max_attempts
+                                        && errors_received >= hedges_spawned + 1
+                                    {
                                         // All spawned, check if this was the last result
                                         config.listeners.emit(&HedgeEvent::AllFailed {
                                             name: config.name.clone(),
